@@ -23,8 +23,14 @@ def main():
             print(json.dumps(doc.get('solver'), indent=1)[:3000])
             sys.exit(1)
         out = RP.run_native([req])[0]
-        print(json.dumps({'obligation': doc.get('obligation'), 'clause': doc.get('clause'), 'observed': out}, indent=1)[:6000])
-        sys.exit(0)
+        rec = doc.get('native', {}).get('observed') or {}
+        keys = ('outcome', 'result', 'exc', 'view', 'files', 'log', 'runs')
+        same = all(out.get(k) == rec.get(k) for k in keys if k in rec or k in out)
+        print(json.dumps({'obligation': doc.get('obligation'), 'clause': doc.get('clause'),
+                          'spec_disagreements_recorded': doc.get('native', {}).get('spec_disagreements'), 'observed': out}, indent=1)[:6000])
+        # exit 1: the real code under $VERIF_REPO still behaves as recorded in the replay file (the failure reproduces)
+        print('REPLAY: the recorded behaviour %s on the current tree' % ('REPRODUCES' if same else 'does NOT reproduce'))
+        sys.exit(1 if same and doc.get('native', {}).get('confirmed') else 0)
     if not a.prop:
         ap.error('property id required')
     try:
